@@ -628,8 +628,9 @@ class ChainedDiscretizer(BaseDiscretizer):
                 # values of the feature to input (needed for next levels of the order)
                 df_to_input = [x_copy[feature] == discarded for discarded in values_to_group]
 
-                # inputing non frequent values
-                x_copy[feature] = select(df_to_input, groups_value, default=x_copy[feature])
+                # inputing non frequent values (if any)
+                if len(values_to_group) > 0:
+                    x_copy[feature] = select(df_to_input, groups_value, default=x_copy[feature])
 
                 # historizing in the feature's order
                 for discarded, kept in zip(values_to_group, groups_value):
